@@ -702,6 +702,18 @@ def session_begin_wiring(prog):
                     l = g.nodes[g.skip(a['l'])]
                     if l['k'] == 'mem' and g.const_value(a['r']) == ('bool', True):
                         out.add(l['f'])
+                # ... or through a one-line setter called with true
+                for _, c in g.calls():
+                    for k, a in enumerate(c.get('args', [])):
+                        if g.const_value(a) != ('bool', True):
+                            continue
+                        for h in prog.callee_fns(g, c):
+                            if h.entry is None or not (h.record or '').endswith('C2sStreamManager'):
+                                continue
+                            for _, a2 in h.all_nodes('assign'):
+                                l2, r2 = h.nodes[h.skip(a2['l'])], h.nodes[h.skip(a2['r'])]
+                                if l2['k'] == 'mem' and r2['k'] == 'var' and r2.get('vk') == 'param' and r2.get('pidx') == k:
+                                    out.add(l2['f'])
         return out
     resumed_members = set_true_in('SmResumed') - set_true_in('SmEnabled')        # by the type of the nonza that sets them, not by name
     if len(resumed_members) != 1:
